@@ -141,6 +141,27 @@ def check_context(case, res: Res, md) -> None:
             continue
         if md.renderer.render([tok], md.options, {}) != base_html:
             res.fail(f"context:{name}:html-differs", doc)
+    # all contexts in one document (a heading repeated as a paragraph, the same text in several cells ...): the meaning of
+    # t does not depend on what else the document holds
+    if len(ctxs) >= 2 and not res.v:
+        parts = [t] + [doc for doc, _i, _n in ctxs.values()] + ([("| " + t + " | " + t + " |\n|-|-|\n| " + t + " | " + t + " |")] if "cell" in ctxs else []) + [t]
+        T = md.parse("\n\n".join(parts) + "\n", {})
+        inl = [x for x in T if x.type == "inline"]
+        expected_n = 2 + len(ctxs) + (4 if "cell" in ctxs else 0)
+        if len(inl) != expected_n:
+            res.fail("context:together:shape", f"{len(inl)} inline containers, expected {expected_n}: {[x.type for x in T][:30]}")
+        else:
+            for j, tok in enumerate(inl):
+                if tok.content != t:
+                    res.fail("context:together:content", f"inline container #{j}: {tok.content!r} != {t!r}")
+                    break
+                got = dump(tok.children or [])
+                if got != base:
+                    res.fail("context:together:children-differ", f"inline container #{j} of the combined document: {first_diff(got, base)}")
+                    break
+                if md.renderer.render([tok], md.options, {}) != base_html:
+                    res.fail("context:together:html-differs", f"inline container #{j}")
+                    break
 
 
 def _void_present(tokens) -> bool:
@@ -287,6 +308,16 @@ def check_options(case, res: Res) -> None:
     o_e = R(copy.deepcopy(plain), with_opts(highlight=lambda c, l, a: ""), {})
     if o_e != o_b:
         res.fail("options:highlight-empty-changes-output", "")
+    if fences:
+        # a highlighter may itself use the instance (e.g. to preview a markdown fence): still only the fence body changes
+        def hl_reentering(content, lang, attrs):
+            base_md.renderInline("x *y* `z`")
+            base_md.render("# in\n\n```py\nq\n```\n\ntext\n")
+            return HA + escapeHtml(content) + HB
+
+        o_re = R(copy.deepcopy(plain), with_opts(highlight=hl_reentering), {})
+        if o_re != o_hl:
+            res.fail("options:highlight-reentering-changes-output", f"{o_re!r} vs {o_hl!r}"[:500])
 
 
 def check(case) -> Res:
